@@ -34,6 +34,8 @@ def fam(name, depth, ann, bases, bin=(), un=(), maps=(), fields=(), types=(), ep
 QUICK = [
     fam('rec', 2, 3, ['int'], bin=['pair'], fields=['a', 'int_1'], types=['a']),
     fam('sum', 2, 2, ['int', 'unit'], bin=['or'], fields=['a', 'int_1'], ep=4),
+    # annotations of the generated-name form, with and without the collision suffix
+    fam('recu', 2, 2, ['int'], bin=['pair'], fields=['int_2', 'int_2_']),
     fam('mix', 2, 1, ['int', 'unit'], bin=['pair', 'or'], un=['option'], fields=['a'], ep=6),
     fam('coll', 2, 0, ['int', 'string'], bin=['pair', 'or'], un=['option', 'list', 'set'], maps=['map', 'big_map']),
     fam('keys', 2, 1, ['nat'], bin=['pair', 'or'], un=['set'], maps=['map'], fields=['a']),
